@@ -28,10 +28,10 @@ CLAIMS["C15"] = {
     "technique": "Lean 4 theorems (bit lemmas, foldl induction over histories) on a hand-written model + history correspondence against a sorted-set oracle",
 }
 CLAIMS["C01"] = {
-    "text": "The documented semantics are written as an executable, declarative Lean specification (OH/Spec/Rules.lean: selector predicates with existential year instances, pointwise rule combination, spans continued past midnight); the property predicate c01Holds (pointwise equality on all 1440 minutes) is evaluated on the implementation's schedule_at output at run time, and the hand-written model of the evaluator (tied to the code by correspondence, 0 disagreements) mirrors the repaired code. Lean theorems so far cover the outside-range clauses, independence from the bound, 'holidays only from the context' and closed forms of selector predicates; the refinement theorem model ⊑ spec is under construction — until it lands this check is a proof-backed specification oracle, not a full proof, and says so.",
+    "text": "The documented semantics are an executable, declarative Lean specification (OH/Spec/Rules.lean). Lean theorems (OH/Props/C01.lean, proofs in OH/Proofs/EvalSpec*.lean): for every parsed expression (ParserWF), every day 1900..9999 and every minute, the model's iterated day schedule has exactly the state the specification defines — selectors (year/step/wrap, month, ISO week, weekday with nth and offsets, holidays = membership in the context calendars), time spans incl. events and the part beyond 24:00, and the rule fold (normal replaces, additional/closed overlay, fallback only when nothing non-closed covers the day, spans continued from yesterday) — C01_schedule_refines_spec_nodated in full for expressions without dated ranges, _inyear/_plain for dated ranges under a decidable class (bounds with a year unrestricted; yearless bounds without offsets, Easter +- 70 days, or shifted bounds that stay in their calendar year), `_partial` with the explicit hypothesis DatedAgree otherwise; c01Holds_iff makes the link with the run-time oracle literal. The same predicate is evaluated on the implementation's schedule_at output for every minute, and the model is tied to the code by correspondence (0 disagreements).",
     "design_ref": "§5 C01",
-    "note": "Trusted: the hand-written specification (adopts the code's reading where the property text is silent, listed in the file); the model; chrono tie by the chr.* suite; harness/driver. Six genuine defects were repaired in /repo (D10/D19, D11, D12, D18 and the hint defects) and one is an open known finding (D20-dated-window, decidable class on the rule). Out of scope by definition: dated ranges from a yearless date to a date with a year (no documented meaning).",
-    "technique": "Lean 4 executable specification + theorems on a hand-written model, property predicate evaluated on the implementation's output, differential correspondence",
+    "note": "Trusted: the hand-written specification (adopts the code's reading where the property text is silent, listed in the file); the model; chrono tie by the chr.* suite; harness/driver. Remaining hypotheses: EvalScope (shifted days representable; being removed by making the spec saturate like the code) and the dated-range class for yearless bounds shifted out of their calendar year (covered by the oracle only). Genuine defects repaired in /repo on the way: D10/D19, D11, D11b, D12, D18, D20 (pairing window). Out of scope by definition: dated ranges from a yearless date to a date with a year (no documented meaning).",
+    "technique": "Lean 4 refinement proof (model of the evaluator ⊑ declarative specification) + the specification evaluated on the implementation's output + differential correspondence",
 }
 _LB = 'Layer B (EnvOK for the real day level: daily schedules tile the day — available from C14 — and next_change_hint never jumps over a day whose schedule differs) is proved only for the empty expression so far; for other expressions the theorems are `…_partial` under that hypothesis, which the run-time oracle and the correspondence (model = implementation on every generated operation, model mirrors the hint code) stand in for. '
 CLAIMS["C02"] = {
@@ -93,6 +93,18 @@ CLAIMS["C10"] = {
     "design_ref": "§5 C10",
     "note": "Trusted: Lean kernel + standard axioms; translator countries2lean.py; models OH/Model/{HolidayDb,Country,CompactCalendar}.lean; harness/driver (the driver reads the data files itself). Assumed: inflate(deflate(x)) = x; chrono date parsing for the shape present in the files. Latent (not reachable with the shipped files, modelled bug for bug): an empty data file would panic in Country::holidays; a ',' in a region name would shift the following calendars.",
     "technique": "Lean 4 theorems (induction over regions, decide +kernel over generated tables) + translator + exhaustive correspondence with the embedded data",
+}
+CLAIMS["C18"] = {
+    "text": "Lean theorems about the once-cell state machine that is the library's only shared mutable state (five LazyLock tables and one Once flag): in every interleaving of evaluations by any number of threads — including racing first uses — every evaluation returns what a single sequential call returns; clones, repeated calls and the order of first uses are irrelevant. Tie to the code: (a) a source inventory of every static/lazy/atomic/unsafe/thread-local item is regenerated on every run and must equal the model's cells (kernel-checked decide), so new shared state breaks the tie; (b) batches of evaluations from 8-16 threads on shared and cloned values, and fresh processes whose first uses of the lazy tables are ordered or raced, compared with the sequential answers.",
+    "design_ref": "§5 C18",
+    "note": "Partial by nature: the theorem is about the modelled once-cells, real interleavings are sampled; cannot exhibit data races inside dependencies or the memory model. The five LazyLocks are function-local statics, so first-use orders are permutations of the five lazily-initialising entry points.",
+    "technique": "Lean 4 invariant proof over operation histories of a once-cell model + source inventory translator + multi-threaded / multi-process correspondence",
+}
+CLAIMS["C11"] = {
+    "text": "Proved in Lean: the default event times without coordinates, event offset arithmetic, the acceptance condition of coordinates (over a model of doubles mirroring the crate's test), and the CONSEQUENCE — for any event function ordered within the day 'sunrise-sunset' is open exactly from sunrise to sunset (so at solar noon) and closed outside (so at solar midnight), incl. the wrapped case. The physical ordering itself is a fact about third-party floating-point solar geometry and polygon lookup that no executable Lean model of reasonable size can carry: it is covered by a grid search (a test, labelled as such in the evidence), not by a theorem.",
+    "design_ref": "§5 C11",
+    "note": "Triage of D17: times of DAY out of order because civil dusk falls after local midnight (55-60 degrees, June) is not a violation of 'physically ordered' (the instants are ordered, the consequence holds on every such day): reclassified as an ok-level tag. Open: clock-change-between-events (zone offset changes between two events of one day; one point-day in 146.8 M where the consequence fails). Above 60.56 degrees the sunrise crate returns the epoch for events that do not occur (outside the property's latitude range).",
+    "technique": "Lean 4 theorems on the provable part + grid search over coordinates and dates for the third-party floating-point part",
 }
 ALL = [f"C{i:02d}" for i in range(1, 21)]
 NOT_APPLICABLE = {p: PENDING for p in ALL if p not in CLAIMS}
